@@ -169,6 +169,20 @@ class Model(object):
         self.L = L
         self.tops_are_groups = ["group" in x for x in score_spec["parts"]]
 
+    def fractional_measures(self):
+        """[(part index, start, end, beats)] of measures whose length is not a whole number of beats of the
+        notated time signature"""
+        out = []
+        for pm in self.parts:
+            if not pm.tss:
+                continue
+            for s, e in pm.measures:
+                b, bt = pm.ts_at(s)
+                beats = (pm.Q(e) - pm.Q(s)) * Fraction(bt, 4)
+                if beats.denominator != 1:
+                    out.append((pm.idx, s, e, beats))
+        return out
+
     def ppq(self, minimum):
         p = self.L
         while p < minimum:
